@@ -154,6 +154,27 @@ pub fn compare(h: &History, r: &RealOut) -> Option<Result<(), String>> {
     Some(Ok(()))
 }
 
+/// `compare`, but what bin.rs does to the bytes of the file before the driver sees them is not
+/// held against either side. bin.rs is a stub in the simulation (DESIGN §11): the report about a
+/// file that is not UTF-8 (wording, stream, status) and a byte order mark that the real main may or
+/// may not strip are its business; only an abort counts there.
+pub fn compare_scn(scn: &Scenario, h: &History, r: &RealOut) -> Option<Result<(), String>> {
+    let src = &scn.source.0[..];
+    if src.starts_with(&[0xEF, 0xBB, 0xBF]) || std::str::from_utf8(src).is_err() {
+        if h.out_of_fuel() {
+            return None;
+        }
+        if aborted(r).is_some() && !matches!(h.ended(), Some(Event::Panic { .. })) {
+            return Some(Err("the real binary aborted on a file that the simulated main reports or runs".to_owned()));
+        }
+        if std::str::from_utf8(src).is_err() && r.stdout.is_empty() && r.stderr.is_empty() {
+            return Some(Err("nothing was said about an unreadable file".to_owned()));
+        }
+        return Some(Ok(()));
+    }
+    compare(h, r)
+}
+
 pub struct Sweep {
     /// C19: runs whose output depends on the process environment (variables, current directory)
     pub env_dependent: Vec<(u64, String)>,
@@ -235,7 +256,7 @@ pub fn sweep(prop: &str, seed: u64, n: u64, stride: u64, threads: usize, dir: &s
                             }
                         }
                     }
-                    match compare(&hist, &r) {
+                    match compare_scn(&case.scn, &hist, &r) {
                         None => s.not_comparable += 1,
                         Some(Ok(())) => s.compared += 1,
                         Some(Err(e)) => {
@@ -266,7 +287,7 @@ pub fn sweep(prop: &str, seed: u64, n: u64, stride: u64, threads: usize, dir: &s
                                 plain.stdin.bufreader_cap = 8192;
                                 plain.stdout.linewriter_cap = 1024;
                                 let h2 = crate::world::run_cli(&plain);
-                                let note = if plain != case.scn && matches!(compare(&h2, &r), Some(Ok(()))) {
+                                let note = if plain != case.scn && matches!(compare_scn(&plain, &h2, &r), Some(Ok(()))) {
                                     " [the code under test behaves differently under chunked / interrupted delivery than under whole delivery: a C19 matter, not a simulator bug]"
                                 } else {
                                     ""
